@@ -31,7 +31,8 @@ RULE = (
     "everything it depends on, nothing else; the source written by add_kernels(compile=False, save_source_as=...) "
     "defines each XOBJ_TYPEDEF_<name> once and no class name is used before its typedef; cffi accepts the concatenated "
     "declarations; gcc -fsyntax-only accepts the source; for a sample the real add_kernels(kernels={}, "
-    "extra_classes=roots) builds. Cycle reachable from the roots: an exception and no source file. The quick tier also "
+    "extra_classes=roots) builds, a kernel whose return type is the only mention of the first root builds, and the first root "
+    "builds a kernel of its own through compile_class_kernels. Cycle reachable from the roots: an exception and no source file. The quick tier also "
     "enumerates ALL graphs on <=3 classes (kinds x edge kinds x root subsets/orders). Non-trivial = the closure has a "
     "diamond, a chain of depth >= 3, or a field-less class that something depends on; distinct = distinct case JSON."
 )
@@ -359,6 +360,24 @@ def run_case(case):
         if is_raised(r):
             return fail("add_kernels_failed", f"class reachable only through a kernel's return type: {r}", "return_type|" + r.key, labels)
         labels.add("class_via_return_type")
+        if isinstance(rc0, type) and issubclass(rc0, xo.Struct) and not rc0._kernels and not rc0._extra_c_sources and (len(case["nodes"]) + len(case["roots"])) % 2 == 0:
+            # the class brings its own kernel (source in _extra_c_sources, no argument of the class type) and is built
+            # through its compile_class_kernels: the class, its closure and its sources must be emitted all the same
+            kn2 = "vf_ck_%d" % next(_counter)
+            rc0._extra_c_sources = [f"int32_t {kn2}(int32_t a){{ {rc0.__name__} vf_unused = 0; (void) vf_unused; return a + 1; }}"]
+            rc0._kernels = {kn2: xo.Kernel(args=[xo.Arg(xo.Int32, name="a")], ret=xo.Arg(xo.Int32), c_name=kn2)}
+            ctx4 = xo.ContextCpu()
+            try:
+                r = sut(rc0.compile_class_kernels, ctx4)
+                if is_raised(r):
+                    return fail("add_kernels_failed", f"compile_class_kernels of {rc0.__name__}: {r}", "class_kernels|" + r.key, labels)
+                got_ = sut(lambda: getattr(ctx4.kernels, kn2)(a=41))
+                if is_raised(got_) or got_ != 42:
+                    return fail("add_kernels_failed", f"kernel built by compile_class_kernels returned {got_}", "class_kernels_call", labels)
+            finally:
+                rc0._extra_c_sources = []
+                rc0._kernels = {}
+            labels.add("class_kernels_built")
     return Outcome(True, labels=sorted(labels), nontrivial=nontrivial)
 
 
@@ -406,7 +425,7 @@ def budget(tier):
 
 
 def essential_labels(tier):
-    return ["cyclic", "diamond", "chain_depth_3plus", "fieldless_dependency", "kind:hybrid", "kind:ehybrid", "kind:unionref", "kind:ref", "kind:anon_array", "kind:array_base", "same_name_override", "real_build", "duplicate_roots"]
+    return ["cyclic", "diamond", "chain_depth_3plus", "fieldless_dependency", "kind:hybrid", "kind:ehybrid", "kind:unionref", "kind:ref", "kind:anon_array", "kind:array_base", "same_name_override", "real_build", "class_kernels_built", "duplicate_roots"]
 
 
 # --------------------------------------------------------------------------
